@@ -331,6 +331,66 @@ pub fn run(ctx: &Ctx) {
         }
     }
 
+    // (C12) a platform with 64 KiB pages: sysconf(_SC_PAGESIZE) answers 65536 to the library; the target lives in a
+    // 256 KiB code arena aligned to 64 KiB. 50 cycles of install, re-fake, call, drop: the fakes work and the
+    // executable mappings are the same afterwards.
+    if mons.c12 && ctx.from == 0 && ctx.only.is_none() && !w.under_valgrind && ctx.shard == 0 {
+        let idx = 1_600_000_000;
+        out::intent(idx, "special/64KiB-pages", &J::new().s("crash_sig", "64KiB-pages"));
+        let want = 0x6200_0000_0000usize;
+        let big = if maps::is_free(want - 0x1_0000, 6 * 0x1_0000) { Arena::map_at(want, 4 * 0x1_0000, RWX) } else { None };
+        match big {
+            None => out::outcome(idx, "special/64KiB-pages", Verdict::Inconclusive, "could-not-map-the-aligned-arena", &J::new()),
+            Some(ar) => {
+                ar.fill(0xCC);
+                let taddr = ar.base + 0x1_0100;
+                ar.write(taddr, &code_ret_const(0x64, 16, 0x90));
+                let before = exec_anon_pages();
+                let img0 = bytes_at(taddr, 16);
+                let mut bad: Option<String> = None;
+                ip::FAKE_PAGE_SIZE.store(65536, Ordering::SeqCst);
+                let r = std::panic::catch_unwind(std::panic::AssertUnwindSafe(|| {
+                    for cyc in 0..50 {
+                        let mut inj = ip::lib(InjectorPP::new);
+                        ip::lib(|| inj.when_called(fp(taddr, SIG_I32)).will_execute_raw(injectorpp::func!(fn (fk1)() -> i32)));
+                        let a = unsafe { call0(taddr) };
+                        ip::lib(|| inj.when_called(fp(taddr, SIG_I32)).will_execute_raw(injectorpp::func!(fn (fk2)() -> i32)));
+                        let b = unsafe { call0(taddr) };
+                        ip::lib(|| drop(inj));
+                        let c = unsafe { call0(taddr) };
+                        if (a, b, c) != (0x7101, 0x7102, 0x64) {
+                            return Some(format!("cycle {}: calls returned {:#x}, {:#x}, {:#x}", cyc, a, b, c));
+                        }
+                    }
+                    None
+                }));
+                ip::FAKE_PAGE_SIZE.store(0, Ordering::SeqCst);
+                match r {
+                    // a library that refuses to work with such pages says so loudly: nothing to hold against C12
+                    Err(p) => out::outcome(idx, "special/64KiB-pages", Verdict::Inconclusive, "library-panicked-with-64KiB-pages", &J::new().s("panic", &panicobs::payload_msg(&p))),
+                    Ok(x) => {
+                        bad = x;
+                        let after = exec_anon_pages();
+                        if bad.is_none() && after != before {
+                            bad = Some(format!("{} executable anonymous pages appeared, {} vanished over 50 cycles", after.difference(&before).count(), before.difference(&after).count()));
+                        }
+                        if bad.is_none() && bytes_at(taddr, 16) != img0 {
+                            bad = Some("the function's bytes are not back".into());
+                        }
+                        match bad {
+                            None => out::outcome(idx, "special/64KiB-pages", Verdict::Held, "", &J::new().n("cycles", 50)),
+                            Some(b) => {
+                                out::outcome(idx, "special/64KiB-pages", Verdict::Violated, "c12:mappings-differ-after-cycles-with-64KiB-pages", &J::new().s("what", &b));
+                                std::process::exit(75);
+                            }
+                        }
+                    }
+                }
+                drop(ar);
+            }
+        }
+    }
+
     // (C03) a second thread keeps executing the untouched neighbour functions (same page as many
     // targets) for the whole run: they must stay executable and original *during* installs and removals
     let stop = std::sync::Arc::new(std::sync::atomic::AtomicBool::new(false));
